@@ -1,3 +1,33 @@
 package main
 
-func extractRest3(l *loaded, genDir, jsonDir string) error { return nil }
+func extractRest3(l *loaded, genDir, jsonDir string) error {
+	pi, err := extractInstance(l, "pkg/sql/parser", "Parser",
+		[]string{"Parse", "ParseContext", "ParseWithPositions", "ParseWithRecovery", "parseWithRecovery"},
+		[]string{"Reset", "Release"},
+		[]string{"strict", "dialect"},
+		[]string{"ApplyOptions"})
+	if err != nil {
+		return err
+	}
+	if err := writeJSON(jsonDir+"/parser_instance.json", pi); err != nil {
+		return err
+	}
+	if err := emitInstanceLean("parser", pi, genDir); err != nil {
+		return err
+	}
+	ti, err := extractInstance(l, "pkg/sql/tokenizer", "Tokenizer",
+		[]string{"Tokenize", "TokenizeContext"},
+		[]string{"Reset"},
+		[]string{"keywords", "dialect", "logger"},
+		[]string{"SetDialect", "SetLogger"})
+	if err != nil {
+		return err
+	}
+	if err := writeJSON(jsonDir+"/tokenizer_instance.json", ti); err != nil {
+		return err
+	}
+	if err := emitInstanceLean("tokenizer", ti, genDir); err != nil {
+		return err
+	}
+	return extractRest4(l, genDir, jsonDir)
+}
